@@ -267,7 +267,7 @@ def gen_flat(ty, expr, c, env=None):
                 elif v.shape == 'named': pat = '%s::%s { %s }' % (d.name, v.name, ', '.join('%s: %s' % (f.name, b) for f, b in zip(v.fields, binds)))
                 else: pat = '%s::%s(%s)' % (d.name, v.name, ', '.join(binds))
                 c.emit('%s => { l.push(%d);' % (pat, pos))
-                if v.skip: c.emit('l.push(0xdead);')      # encoding a skipped variant is not defined by the codec; the harness assumes it away
+                if v.skip: c.emit('l.skipped = true;')      # encoding a skipped variant is not defined by the codec; the harness assumes such values away
                 for f, b in zip(v.fields, binds):
                     if not f.skip: gen_flat(f.ty, '(*%s)' % b, c, env2)
                     else: c.emit('let _ = %s;' % b)
@@ -519,12 +519,11 @@ def emit_harnesses(tag, roots, dump, ctor=None, nleaves=40, nbytes=96):
         c2 = Code(); gen_flat(r, '(*v)', c2)
         out += 'fn flat_%s(v: &%s, l: &mut Leaves) {\n    %s\n}\n' % (name, r.rust(), '\n    '.join(c2.lines))
         c3 = Code()
-        if has_skipped_variant(r): gen_skip_assume(r, 'v', c3)
         mk = ctor[i] if ctor and ctor[i] else 'let v: %s = kani::any();' % r.rust()
         if mk != 'NOKANI': names.append(name.lower())
         if mk == 'NOKANI': mk = 'let v: %s = unimplemented!();' % r.rust()
-        out += '#[cfg(kani)]\n#[kani::proof]\n#[kani::unwind(%d)]\nfn %s() {\n    %s\n    %s\n    let mut out = FixedOut::<%d>::new();\n    v.encode_to(&mut out);\n    assert!(out.n <= %d);\n' % (nbytes + 4, name.lower(), mk, '\n    '.join(c3.lines), nbytes, nbytes)
-        out += '    let mut r = Rd { b: &out.buf, n: out.n, p: 0, ok: true };\n    let mut got = Leaves::new();\n    dec_%s(&mut r, &mut got);\n    let mut want = Leaves::new();\n    flat_%s(&v, &mut want);\n' % (name, name)
+        out += '#[cfg(kani)]\n#[kani::proof]\n#[kani::unwind(%d)]\nfn %s() {\n    %s\n    %s\n    let mut out = FixedOut::<%d>::new();\n    let mut want = Leaves::new();\n    flat_%s(&v, &mut want);\n    kani::assume(!want.skipped);      // values inside #[codec(skip)] variants have no defined encoding\n    v.encode_to(&mut out);\n    assert!(out.n <= %d);\n' % (nbytes + 4, name.lower(), mk, '\n    '.join(c3.lines), nbytes, name, nbytes)
+        out += '    let mut r = Rd { b: &out.buf, n: out.n, p: 0, ok: true };\n    let mut got = Leaves::new();\n    dec_%s(&mut r, &mut got);\n' % name
         out += '    assert!(r.ok);\n    assert!(r.p == out.n);\n    got.same(&want);\n    kani::cover!(true);\n    core::mem::forget(v);\n}\n\n'
         natives.append(name)
         out += '#[cfg(not(kani))]\npub fn native_%s(g: &mut Gen) -> bool {\n    let v: %s = %s;\n    let bytes = v.encode();\n    let mut r = Rd { b: &bytes, n: bytes.len(), p: 0, ok: true };\n' % (name, r.rust(), gen_sample(r))
